@@ -23,6 +23,11 @@ def run(chk):
         case['iters'] = min(case['iters'], 150 if thorough else 80)
         if _ % 3 == 1:      # the objective fails at a few evaluations; the caller catches the exception and goes on
             case['fail_at'] = sorted(rng.sample(range(3, max(6, case['iters'])), 3)); case['eps'] = 1e-9
+        if _ % 4 == 0:      # the search is resumed (Solve on an exhausted budget, budget raised) several times
+            case['n'] = max(case['n'], 2)
+            case['lo'], case['hi'] = H.random_box(rng, case['n'])
+            case['objective'] = H.random_objective(rng, case['n'], kinds=('multi', 'cones', 'sin'), lo=case['lo'], hi=case['hi'])
+            case['resume_at'] = [8, 20, 35, 50, 65]; case['eps'] = 1e-9; case['iters'] = 80
         if _ % 3 == 2:      # refinement early in the search, then the search goes on
             case['refine_at'] = rng.choice([2, 4, 8]); case['eps'] = 1e-9
             if _ % 2 == 0:
@@ -41,21 +46,22 @@ def run(chk):
                 break
     # long runs with a quiet late phase (neither M nor z* changes for thousands of iterations): binary64 arg-max check at every step
     longs = []
-    for i in range(8 if thorough else 3):
-        side = 1.0
+    plans = [('hinge', 1, 16000), ('rootabs', 1, 2500), ('sin', rng.choice([2, 5, 16]), 1500), ('2d', rng.choice([2, 5]), 600), ('2dresume', 1, 1200), ('3dresume', 1, 800)]
+    if thorough:
+        plans += [('sin', 1, 16000), ('const', 1, 16000), ('2dflat', 1, 9000), ('hinge', 16, 4000), ('rootabs', 1, 6000), ('2d', 16, 2000)]
+    for kind, batch, iters in plans:
         a = round(rng.uniform(0.2, 0.5), 3)
-        objs = [{'kind': 'pwl1d', 'xs': [0.0, a - 0.17, a + 0.23, 1.0], 'vs': [a - 0.17, 0.0, 0.0, 0.77 - a]},      # hinge: a flat basin, uniform refinement inside
-                {'kind': 'sin', 'w': [round(rng.uniform(2, 9), 2)], 'a': [1.0]},
-                {'kind': 'const', 'c': 0.5}]
-        case = {'n': 1, 'lo': [0.0], 'hi': [1.0], 'r': rng.choice([1.5, 2.0, 2.5]), 'eps': 1e-300, 'iters': 16000 if (thorough or i == 0) else 6000, 'density': None,
-                'objective': objs[i % 3]}
-        if thorough and i >= 3:
-            case.update({'n': 2, 'lo': [0.0, 0.0], 'hi': [1.0, 1.0], 'iters': 9000})
-            case['objective'] = {'kind': 'cones', 'centers': [[0.5, 0.5]], 'slopes': [0.01], 'offsets': [0.0]}
-        if i >= 1 and not (thorough and i >= 3 and i < 6):      # requests of several iterations at once: every one of them obeys the rule
-            case.update({'batch': rng.choice([2, 5, 16]), 'iters': 1500 if not thorough else 4000})
-            if i % 2 == 0:
-                case.update({'n': 2, 'lo': [0.0, 0.0], 'hi': [1.0, 1.0], 'objective': H.random_objective(rng, 2, kinds=('sin', 'cones', 'quad'), lo=[0.0, 0.0], hi=[1.0, 1.0]), 'iters': 600})
+        obj = {'hinge': {'kind': 'pwl1d', 'xs': [0.0, a - 0.17, a + 0.23, 1.0], 'vs': [a - 0.17, 0.0, 0.0, 0.77 - a]},      # a flat basin: uniform refinement inside, a quiet late phase
+               'rootabs': {'kind': 'rootabs', 'c': [round(rng.uniform(0.2, 0.8), 3)], 'q': rng.choice([0.5, 0.7])},      # Hoelder, not Lipschitz, at the minimiser: M keeps growing on ever closer pairs
+               'sin': {'kind': 'sin', 'w': [round(rng.uniform(2, 9), 2)], 'a': [1.0]}, 'const': {'kind': 'const', 'c': 0.5},
+               '2dflat': {'kind': 'cones', 'centers': [[0.5, 0.5]], 'slopes': [0.01], 'offsets': [0.0]},
+               '2d': H.random_objective(rng, 2, kinds=('sin', 'cones', 'quad'), lo=[0.0, 0.0], hi=[1.0, 1.0]),
+               '2dresume': {'kind': 'gkls', 'dim': 2, 'k': rng.choice([5, 5, rng.randint(1, 100)])},
+               '3dresume': {'kind': 'gkls', 'dim': 3, 'k': rng.choice([2, 2, rng.randint(1, 100)])}}[kind]
+        n = 3 if kind.startswith('3d') else (2 if kind.startswith('2d') else 1)
+        case = {'n': n, 'lo': [0.0] * n, 'hi': [1.0] * n, 'r': rng.choice([1.5, 2.0, 2.5]), 'eps': 1e-300, 'iters': iters, 'density': None, 'objective': obj, 'batch': batch}
+        if kind.endswith('resume'):
+            case.update({'resume_every': 100, 'lo': [-1.0] * n, 'hi': [1.0] * n, 'r': rng.choice([3.5, 4.5])})
         res = O.guarded(O.c02_long, case)
         chk.evaluations += 1
         if isinstance(res, tuple):
